@@ -85,6 +85,31 @@ def boundary_session(run, rng, mtu, lengths, label):
     return net, diffs, n
 
 
+def overtaken_session(run, rng, label, newer, mtu):
+    """one guaranteed message whose every datagram is lost while more than `newer` newer messages of the
+    same sender get through (the receiver's 256-message window moves past it), then the loss stops"""
+    cfg = {"loss": 0, "dup": 0, "reorder": 0, "tick": 300, "delay": 0}
+    net = netsim.Net(run, rng, cfg, mtu=mtu)
+    try:
+        who = rng.choice(["client", "server"])
+        mid = net.send(who, rng.choice([60, 300]), -1, with_cb=True, api=True)
+        marker = net.sent[who][mid]["payload"][:9]
+        net.drop_filter = lambda w, rec: w == who and marker in bytes(rec["payload"])
+        sent_newer = 0
+        while sent_newer < newer:
+            for _ in range(3):
+                net.send(who, 3, 0, with_cb=False)
+                sent_newer += 1
+            net.step()
+        net.drop_filter = None
+        heal(net, extra_steps=40)
+        diffs = net.check_models()
+        n = check_delivery(run, net, label, {"phase": "overtaken", "newer_messages": sent_newer})
+    finally:
+        net.close()
+    return net, diffs, n
+
+
 def random_session(run, rng, label, steps):
     cfg = {"loss": rng.choice([0.1, 0.3, 0.5]), "dup": rng.choice([0, 0.2]), "reorder": rng.choice([0, 0.3]),
            "tick": rng.choice([300, 600, 900]), "max_delay": rng.choice([T // 8, T // 2]),
@@ -135,6 +160,15 @@ def run(run):
                 run.nt(("b", mtu, L))
     if th:
         run.exhaustive.append("every payload length within +-12 of MAX_PAYLOAD_SIZE, k*MAX_FRAGMENT_SIZE (k<=4) and MAX_PAYLOAD_SIZE+MAX_FRAGMENT_SIZE for 9 MTUs")
+    # (a2) a guaranteed message overtaken by more than a window of newer messages while all its copies are lost
+    for i, newer in enumerate(([40, 250, 270, 300, 600] if th else [270, 330])):
+        label = "ov%d" % i
+        net, diffs, n = overtaken_session(run, rng, label, newer, rng.choice([1500, 512]))
+        cases.append({"session": label, "newer": newer, "mtu": net.mtu, "first_difference": diffs[:1]})
+        impl.append("agree"); mod.append("agree" if not diffs else "differ")
+        run.count("overtaken_sessions")
+        run.evaluations += newer
+        run.nt(("ov", newer))
     # (b) random sessions
     for i in range(120 if th else 14):
         label = "r%d" % i
